@@ -96,7 +96,7 @@ def write(prop, spec, tier, seed, outcome, wall, partial=False):
                 "discharged": n_ok,
                 "checker_cmd": f"./check {prop} --tier {tier}",
                 "trusted_base": spec.get("trusted", []),
-                "exhaustive": True,
+                "exhaustive": bool(spec.get("exhaustive", {}).get(tier, True)),
             }
         )
     if level == "other":
